@@ -233,6 +233,7 @@ def run(ctx):
     c01.rule_compositions(ctx)                 # R01.2: uniform COM motion needs every drift sequence to sum to dt
     from . import c09
     c09.rule_frames(ctx)                       # R09.6: invariants across synchronisation (MERCURIUS frames)
+    c09.rule_keep_unsynchronized(ctx)   # R09.3/R09.9: the state handed back by a synchronise is the synchronised one
     c13.rule_merge(ctx)                        # R13.3 merge conserves mass, momentum, centre of mass
     rule_diagnostics(ctx)
     ias15.rule_kahan(ctx, 'R04.5')
